@@ -76,6 +76,10 @@ class Baton(object):
                     tid = want if want in cand else cand[0]
                     if want in cand:
                         self.fixed.pop(0)
+                elif getattr(self, "policy", None) is not None and self.policy(cand, self) is not None:
+                    tid = self.policy(cand, self)   # a scenario-specific preference (phases); the picks are recorded like any others
+                elif self.picks and self.picks[-1] in cand and self.rng.random() < getattr(self, "sticky", 0.0):
+                    tid = self.picks[-1]        # bursty schedules (a thread keeps the CPU for a while), as a real scheduler's time slices produce
                 else:
                     tid = self.rng.choice(cand)
                 steps += 1
@@ -241,6 +245,10 @@ class AsyncBaton(object):
                 tid = want if want in cand else cand[0]
                 if want in cand:
                     self.fixed.pop(0)
+            elif getattr(self, "policy", None) is not None and self.policy(cand, self) is not None:
+                tid = self.policy(cand, self)
+            elif self.picks and self.picks[-1] in cand and self.rng.random() < getattr(self, "sticky", 0.0):
+                tid = self.picks[-1]
             else:
                 tid = self.rng.choice(cand)
             steps += 1
